@@ -22,6 +22,10 @@ CHECKS = {
    text="BFS over histories of use / use-with-failing-store / burst-to-next-store-point / restart (check-in: also crash-after-use, invalidate, owed persist) on the three real counters through their real persistence paths over a recording KV store, from stored boundaries absent, small and next to the range wrap; oracles: no value twice, and every value covered by the durable boundary at the moment of use.",
    note="Fewer than one full range consumed per history; group values count as used when initiate_group returns an exchange carrying them; the check-in application follows the interface contract.",
    tech="explicit-state BFS over operation/crash histories of the real implementation with a reference model"),
+ "C13": dict(cat="model_checking",
+   text="BFS over histories of subscribe / two-chunk report reads / report ok or fail / attribute, cluster and endpoint changes / coalescing bursts / reporter iterations (remove-expired, report-or-purge) / unsubscribe / clock ticks on the real Subscriptions<2> table; in every visited state two bounded-liveness runs follow the table's own deadlines (all further reports succeed / all fail) and require that every live subscriber ends up knowing every current value, that failing subscriptions get no report attempt after max interval, and that min/max intervals are respected.",
+   note="Model level: reads are should_report_attr decisions; events and the wire/chunk encoding are not part of this check; 'eventually' = within 16 reporter iterations at the announced deadlines.",
+   tech="explicit-state BFS over operation histories of the real implementation with a bounded-liveness oracle per state"),
  "C16": dict(cat="exploration",
    text="Bounded exhaustive input enumeration on the real codec: every byte string up to a length bound, a grammar-directed malformed set with boundary length fields up to 2^64-1, every value tree over boundary alphabets round-tripped, and every public derived wire decoder fed with all of these plus single-byte/bit mutations of valid encodings; all public accessors called on each input, with overflow checks on and a hang watchdog.",
    note="Checked build has overflow checks and debug assertions on; values beyond the boundary alphabets, strings above 65537 bytes and trees above 4 nodes are outside the bound.",
